@@ -408,6 +408,68 @@ func TestLoopScopeTableV2(t *testing.T) {
 	evid.Exhaustive("v2 loop kinds x assignment forms x pass that reads x how passes end: body-local name read in a later pass", n)
 }
 
+// TestSliceCopyTableV2: a slice of a list is a new list in v2 as well: a write through the slice does not reach the
+// source, and a write to the source does not reach the slice - for every bound form, step 1 included.
+func TestSliceCopyTableV2(t *testing.T) {
+	type sl struct {
+		lo, hi, st *gen.Node
+		colon2     bool
+	}
+	i := func(v int64) *gen.Node { return i64(v) }
+	slices := []sl{{i(1), i(3), nil, false}, {nil, nil, nil, false}, {i(2), nil, nil, false}, {nil, i(2), nil, false}, {i(0), i(4), i(1), true}, {nil, nil, i(1), true}, {nil, nil, i(2), true}, {nil, nil, i(-1), true}, {i(-3), i(-1), nil, false}, {i(1), i(3), nil, true}}
+	writes := []func(target string, k int64) *gen.Node{
+		func(tg string, k int64) *gen.Node {
+			return gen.NAssign("=", []*gen.Node{gen.NIndex(id(tg), i(k))}, []*gen.Node{i(99)})
+		},
+		func(tg string, k int64) *gen.Node {
+			return gen.NAssign("+=", []*gen.Node{gen.NIndex(id(tg), i(k))}, []*gen.Node{i(100)})
+		},
+		func(tg string, k int64) *gen.Node {
+			return gen.NAssign("=", []*gen.Node{gen.NIndex(id(tg), i(k)), id("z")}, []*gen.Node{i(77), i(0)})
+		},
+	}
+	n := 0
+	for si, s := range slices {
+		for wi, w := range writes {
+			for _, target := range []string{"a", "b"} {
+				for _, k := range []int64{0, 1, -1} {
+					for nest := 0; nest < 3; nest++ {
+						mk := func(obj *gen.Node) *gen.Node {
+							var lo, hi, st *gen.Node
+							if s.lo != nil {
+								lo = s.lo.Clone()
+							}
+							if s.hi != nil {
+								hi = s.hi.Clone()
+							}
+							if s.st != nil {
+								st = s.st.Clone()
+							}
+							return gen.NSlice(obj, lo, hi, st, s.colon2)
+						}
+						var prog []*gen.Node
+						switch nest {
+						case 0:
+							prog = []*gen.Node{gen.NSet("a", gen.NList(i(1), i(2), i(3), i(4))), gen.NSet("b", mk(id("a")))}
+						case 1:
+							// the source sits inside a map and is reached through it: t = m["k"]; b = t[..]; a is the same list
+							prog = []*gen.Node{gen.NSet("a", gen.NList(i(1), i(2), i(3), i(4))), gen.NSet("m", gen.NMap(str("k"), id("a"))), gen.NSet("t", gen.NIndex(id("m"), str("k"))), gen.NSet("b", mk(id("t")))}
+						default:
+							// a slice of a slice
+							prog = []*gen.Node{gen.NSet("c", gen.NList(i(0), i(1), i(2), i(3), i(4), i(5))), gen.NSet("a", gen.NSlice(id("c"), i(1), i(5), nil, false)), gen.NSet("b", mk(id("a")))}
+						}
+						prog = append(prog, gen.NCall("probe", str("before"), id("a"), id("b")), w(target, k), gen.NCall("probe", str("after"), id("a"), id("b")))
+						c := sem.NewCase(gen.FixAll(prog))
+						judge(t, "slice-copy", c, fmt.Sprintf("slicecopy/%d/%d/%s/%d/%d", si, wi, target, k, nest), true, "slice-copy-v2")
+						n++
+					}
+				}
+			}
+		}
+	}
+	evid.Exhaustive("v2: slice form x write form x written side x index x nesting of the source", n)
+}
+
 func TestFixedDialect(t *testing.T) {
 	cases := [][]*gen.Node{
 		{gen.NCall("probe", str("x"), id("undefined_name"))},
@@ -424,6 +486,12 @@ func TestFixedDialect(t *testing.T) {
 		{gen.NSet("o", gen.NMap()), i64(5), gen.NSet("x", gen.NAttr(id("o"), id("b"))), gen.NCall("probe", str("stale"), id("x"))},
 		{gen.NSet("l", gen.NList(i64(1))), gen.NAssign("=", []*gen.Node{gen.NIndex(id("l"), i64(0)), id("z")}, []*gen.Node{i64(7), gen.NIndex(id("l"), i64(0))}), gen.NCall("probe", str("elem"), id("l"), id("z"))},
 		{gen.NIf([]*gen.Node{gen.NBool(true)}, [][]*gen.Node{{gen.NSet("inner", i64(1))}}, nil, false), gen.NCall("probe", str("gone"), id("inner"))},
+		// the whole right side is evaluated before any target is written: element swap, aliases, slices of a target
+		{gen.NSet("a", gen.NList(i64(1), i64(2), i64(3))), gen.NAssign("=", []*gen.Node{gen.NIndex(id("a"), i64(0)), gen.NIndex(id("a"), i64(2))}, []*gen.Node{gen.NIndex(id("a"), i64(2)), gen.NIndex(id("a"), i64(0))}), gen.NCall("probe", str("elem-swap"), id("a"))},
+		{gen.NSet("s2", gen.NList(i64(7), i64(8))), gen.NSet("s", id("s2")), gen.NAssign("=", []*gen.Node{gen.NIndex(id("s"), i64(0)), gen.NIndex(id("s"), i64(1))}, []*gen.Node{gen.NIndex(id("s2"), i64(1)), gen.NIndex(id("s2"), i64(0))}), gen.NCall("probe", str("alias-swap"), id("s"), id("s2"))},
+		{gen.NSet("u", gen.NList(i64(1), i64(2), i64(3))), gen.NAssign("=", []*gen.Node{gen.NIndex(id("u"), i64(0)), id("w")}, []*gen.Node{i64(9), gen.NSlice(id("u"), nil, i64(2), nil, false)}), gen.NCall("probe", str("slice-after-target"), id("u"), id("w"))},
+		{gen.NSet("m", gen.NMap(str("k"), i64(1), str("j"), i64(2))), gen.NAssign("=", []*gen.Node{gen.NIndex(id("m"), str("k")), gen.NIndex(id("m"), str("j")), id("n")}, []*gen.Node{gen.NIndex(id("m"), str("j")), gen.NIndex(id("m"), str("k")), gen.NCall("len", id("m"))}), gen.NCall("probe", str("map-swap"), id("m"), id("n"))},
+		{gen.NSet("x", i64(1)), gen.NSet("y", i64(2)), gen.NSet("z", i64(3)), gen.NAssign("=", []*gen.Node{id("x"), id("y"), id("z")}, []*gen.Node{id("z"), id("x"), id("y")}), gen.NCall("probe", str("rotate"), id("x"), id("y"), id("z"))},
 	}
 	for i, p := range cases {
 		judge(t, "fixed", sem.NewCase(gen.FixAll(p)), fmt.Sprint("fixed/", i), true, "fixed")
